@@ -80,7 +80,39 @@ func queriesScenario(s *Sim, params map[string]string) {
 			}
 		}
 	}
-	cl.ListOffsetsErr = func(topic string, part int32) int16 { return failCode[tp{topic, part}] }
+	// some of those partitions fail only one kind of look-up (as a log in an
+	// old message format fails look-ups by time): 0 every kind, 1 only
+	// look-ups by time, 2 only the first offset, 3 only the last offset
+	failOnly := map[tp]int{}
+	for _, tn := range topics {
+		for _, p := range cl.Topics[tn].Parts {
+			if _, ok := failCode[tp{tn, p.ID}]; ok {
+				failOnly[tp{tn, p.ID}] = t.Intn("cfg", 4)
+			}
+		}
+	}
+	lookupFails := func(k tp, ts int64) int16 {
+		code := failCode[k]
+		if code == 0 {
+			return 0
+		}
+		switch failOnly[k] {
+		case 1:
+			if ts < 0 {
+				return 0
+			}
+		case 2:
+			if ts != kafka.FirstOffset {
+				return 0
+			}
+		case 3:
+			if ts != kafka.LastOffset {
+				return 0
+			}
+		}
+		return code
+	}
+	cl.ListOffsetsErr = func(topic string, part int32, ts int64) int16 { return lookupFails(tp{topic, part}, ts) }
 	cl.CommitErr = func(g *Group, topic string, part int32) int16 { return failCode[tp{topic, part}] }
 	downBroker := int32(0)
 	if nb > 1 && t.Intn("cfg", 4) == 0 {
@@ -124,21 +156,28 @@ func queriesScenario(s *Sim, params map[string]string) {
 							if t.Intn("work", 2) == 0 {
 								continue
 							}
-							switch t.Intn("work", 3) {
-							case 0:
-								req[x] = append(req[x], kafka.FirstOffsetOf(int(pp.ID)))
-								qs = append(qs, q{pp, kafka.FirstOffset})
-							case 1:
-								req[x] = append(req[x], kafka.LastOffsetOf(int(pp.ID)))
-								qs = append(qs, q{pp, kafka.LastOffset})
-							case 2:
-								recs := pp.Records()
-								tsq := base + int64(t.Intn("work", 2000))
-								if len(recs) > 0 && t.Intn("work", 2) == 0 {
-									tsq = recs[t.Intn("work", len(recs))].Timestamp
+							// one to three look-ups of distinct kinds for the partition
+							kinds := []int{t.Intn("work", 3)}
+							if t.Intn("work", 3) == 0 {
+								kinds = [][]int{{0, 1}, {1, 0}, {0, 2}, {2, 1}, {0, 1, 2}, {2, 1, 0}}[t.Intn("work", 6)]
+							}
+							for _, kind := range kinds {
+								switch kind {
+								case 0:
+									req[x] = append(req[x], kafka.FirstOffsetOf(int(pp.ID)))
+									qs = append(qs, q{pp, kafka.FirstOffset})
+								case 1:
+									req[x] = append(req[x], kafka.LastOffsetOf(int(pp.ID)))
+									qs = append(qs, q{pp, kafka.LastOffset})
+								case 2:
+									recs := pp.Records()
+									tsq := base + int64(t.Intn("work", 2000))
+									if len(recs) > 0 && t.Intn("work", 2) == 0 {
+										tsq = recs[t.Intn("work", len(recs))].Timestamp
+									}
+									req[x] = append(req[x], kafka.TimeOffsetOf(int(pp.ID), time.UnixMilli(tsq)))
+									qs = append(qs, q{pp, tsq})
 								}
-								req[x] = append(req[x], kafka.TimeOffsetOf(int(pp.ID), time.UnixMilli(tsq)))
-								qs = append(qs, q{pp, tsq})
 							}
 						}
 					}
@@ -170,7 +209,16 @@ func queriesScenario(s *Sim, params map[string]string) {
 							bad("R1-missing-partition", "Client.ListOffsets: no entry for %s[%d]", x.p.Topic, x.p.ID)
 							continue
 						}
-						code := failCode[tp{x.p.Topic, x.p.ID}]
+						// a partition's entry carries an error when any of its
+						// look-ups failed
+						var code int16
+						for _, y := range qs {
+							if y.p == x.p {
+								if c := lookupFails(tp{y.p.Topic, y.p.ID}, y.ts); c != 0 {
+									code = c
+								}
+							}
+						}
 						switch {
 						case leaderDown(x.p):
 							if got.Error == nil {
@@ -372,7 +420,12 @@ func queriesScenario(s *Sim, params map[string]string) {
 						break
 					}
 					conn.SetDeadline(time.Now().Add(3 * time.Second))
-					code := failCode[tp{tn, p.ID}]
+					// (ReadOffsets asks for the first and the last offset)
+					code := lookupFails(tp{tn, p.ID}, kafka.FirstOffset)
+					if c := lookupFails(tp{tn, p.ID}, kafka.LastOffset); c != 0 {
+						code = c
+					}
+					timeFails := lookupFails(tp{tn, p.ID}, 0) != 0
 					first, last, err := conn.ReadOffsets()
 					switch {
 					case code != 0:
@@ -384,7 +437,7 @@ func queriesScenario(s *Sim, params map[string]string) {
 					}
 					if code == 0 && err == nil {
 						recs := p.Records()
-						if len(recs) > 0 {
+						if len(recs) > 0 && !timeFails {
 							r := recs[t.Intn("work", len(recs))]
 							got, err := conn.ReadOffset(time.UnixMilli(r.Timestamp))
 							want, _ := p.OffsetForTime(r.Timestamp)
